@@ -92,6 +92,7 @@ def check(prog, rep):
     _partition_distance(prog, rep)
     _ci2ls_ls2ci(prog, rep)
     _index_kinds(prog, rep)
+    _module_loops(prog, rep)
     rep.floor('C.raw-labels-only-in-safe-uses', 18)
     rep.floor('C.canonicalises', 13)
     rep.floor('G.', 4)
@@ -272,6 +273,75 @@ def _index_kinds(prog, rep):
     rep.ob('K.index-kinds-consistent', ('bct/algorithms', 'all partition consumers'), 'sites flagged: %d' % n_checked, True, '', line=0)
 
 
+def _module_loops(prog, rep):
+    """L: a loop whose variable is compared with label values (`ci == i`) enumerates the modules.  The canonical numbering
+    of modules follows the sort order of the caller's label values, so the *order* in which the loop meets the modules is the one
+    thing about canonical labels that is not invariant under relabelling: the loop must visit every module (no break, no return
+    from inside it) -- skipping one module with `continue` is fine."""
+    from ..engines.labels import GAPPY
+    seen = 0
+    done = set()
+    for modname, fname, param, must in CONSUMERS:
+        if (modname, fname) in done:
+            continue
+        done.add((modname, fname))
+        f = prog.func(modname, fname)
+        params = [p for (m_, f_, p, _) in CONSUMERS if (m_, f_) == (modname, fname)]
+        flow = LabelFlow(prog, f, {p: RAW for p in params})
+        pm = flow.pm
+        # names computed from the labels (transitively, through any assignment)
+        derived = set(params)
+        assigns = [n for n in ast.walk(f.node) if isinstance(n, (ast.Assign, ast.AugAssign))]
+        changed = True
+        while changed:
+            changed = False
+            for a in assigns:
+                if {x.id for x in ast.walk(a.value) if isinstance(x, ast.Name)} & derived:
+                    for t in (a.targets if isinstance(a, ast.Assign) else [a.target]):
+                        for e in (t.elts if isinstance(t, (ast.Tuple, ast.List)) else [t]):
+                            while isinstance(e, (ast.Subscript, ast.Attribute, ast.Starred)):
+                                e = e.value
+                            if isinstance(e, ast.Name) and e.id not in derived:
+                                derived.add(e.id)
+                                changed = True
+        for L in [n for n in ast.walk(f.node) if isinstance(n, ast.For) and isinstance(n.target, ast.Name)]:
+            v = L.target.id
+            is_mod = False
+            for c in [x for x in ast.walk(L) if isinstance(x, ast.Compare) and len(x.ops) == 1 and isinstance(x.ops[0], (ast.Eq, ast.NotEq))]:
+                a, b = c.left, c.comparators[0]
+                for x, y in ((a, b), (b, a)):
+                    if {z.id for z in ast.walk(x) if isinstance(z, ast.Name)} == {v} and not isinstance(x, (ast.Subscript, ast.Call)) \
+                            and not isinstance(y, ast.Constant) and v not in {z.id for z in ast.walk(y) if isinstance(z, ast.Name)} \
+                            and {z.id for z in ast.walk(y) if isinstance(z, ast.Name)} & derived:
+                        is_mod = True
+            for st_ in [x for x in ast.walk(L) if isinstance(x, ast.stmt) and x is not L]:
+                try:
+                    env = flow.at(st_)
+                except Exception:
+                    continue
+                for c in [x for x in ast.walk(st_) if isinstance(x, ast.Compare) and len(x.ops) == 1 and isinstance(x.ops[0], (ast.Eq, ast.NotEq))]:
+                    a, b = c.left, c.comparators[0]
+                    for x, y in ((a, b), (b, a)):
+                        if isinstance(x, ast.Name) and x.id == v and flow.status(y, env) & {RAW, CANON, CANON1, GAPPY}:
+                            is_mod = True
+            if not is_mod:
+                continue
+            seen += 1
+            bad = []
+            for x in ast.walk(L):
+                if isinstance(x, ast.Break):
+                    loops = pm.loops(x)
+                    if loops and loops[0] is L:
+                        bad.append(x)
+                elif isinstance(x, ast.Return):
+                    bad.append(x)
+            rep.ob('L.module-loop-visits-every-module', f, 'for %s in %s' % (v, norm(L.iter)), not bad,
+                   'the loop over modules is left early at line %s: which modules are still processed depends on how the caller '
+                   'numbered them (canonical numbers follow the sort order of the given labels)' % ', '.join(str(x.lineno) for x in bad),
+                   line=L.lineno)
+    rep.floor('L.module-loop-visits-every-module', 15)
+
+
 def variants(root):
     from ..selftest import Variant as V
     C = 'bct/algorithms/centrality.py'
@@ -300,6 +370,13 @@ def variants(root):
                  'C.', 'modularity_finetune_und', scope='def modularity_finetune_und('))
     out.append(V('ls2ci: labels from inner index', 'break', M, 'ci[ls[i][j]] = i + z', 'ci[ls[i][j]] = j + z', 'D.ls2ci', 'ls2ci'))
     out.append(V('ci2ls: raw labels as list index', 'break', M, "    _, ci = np.unique(ci, return_inverse=True)\n    ci += 1\n    nr_indices = int(max(ci))", "    nr_indices = int(max(ci))", 'C.', 'ci2ls'))
+    zl = '        Koi = np.sum(W[np.ix_(ci == i, ci == i)], axis=1)\n'
+    out.append(V('module_degree_zscore: loop stops at the first single-node module', 'break', C, zl,
+                 '        if np.sum(ci == i) < 2:\n            break\n' + zl, 'L.module-loop', 'module_degree_zscore'))
+    out.append(V('neutral: single-node modules skipped', 'neutral', C, zl, '        if np.sum(ci == i) < 2:\n            continue\n' + zl))
+    out.append(V('participation_coef: loop returns at an empty module', 'break', C, '        Kc2 = Kc2 + np.square(np.sum(W * (Gc == i), axis=1))\n',
+                 '        if not np.any(Gc == i):\n            break\n        Kc2 = Kc2 + np.square(np.sum(W * (Gc == i), axis=1))\n', 'L.module-loop', 'participation_coef',
+                 scope='def participation_coef('))
     # neutral
     out.append(V('neutral: unique()[1] + 1 spelling', 'neutral', C, canon, '    ci = np.unique(ci, return_inverse=True)[1] + 1\n', scope='def module_degree_zscore('))
     out.append(V('neutral: VIn re-associated', 'neutral', M, 'Vin = (2 * Hxy - Hx - Hy) / np.log(n)', 'Vin = ((Hxy - Hx) + (Hxy - Hy)) / np.log(n)'))
